@@ -115,8 +115,40 @@ class TlaParser:
         return {"#id": tk}
 
 
+def _fast_value(chunk):
+    """Fast path: values made of tuples, ints and strings only are JSON after renaming the brackets."""
+    if "{" in chunk or "[" in chunk or "|->" in chunk or ":>" in chunk or "TRUE" in chunk or "FALSE" in chunk:
+        return None
+    try:
+        return json.loads(chunk.replace("<<", "[").replace(">>", "]"))
+    except ValueError:
+        return None
+
+
 def tagged_values(text, tag):
     """All values TLC printed as << "tag", ... >> (possibly over several lines)."""
+    out = []
+    head1, head2 = '<<"%s"' % tag, '<< "%s"' % tag
+    lines = text.split("\n")
+    i, n = 0, len(lines)
+    slow = False
+    while i < n:
+        ln = lines[i]
+        if ln.startswith(head1) or ln.startswith(head2):
+            chunk = ln
+            depth = ln.count("<<") - ln.count(">>")
+            while depth > 0 and i + 1 < n:
+                i += 1
+                chunk += " " + lines[i]
+                depth += lines[i].count("<<") - lines[i].count(">>")
+            val = _fast_value(chunk)
+            if val is None:
+                slow = True
+                break
+            out.append(val)
+        i += 1
+    if not slow:
+        return out
     out = []
     for m in re.finditer(r'<<\s*"%s"' % re.escape(tag), text):
         p = TlaParser(text, m.start())
